@@ -388,12 +388,9 @@ func ruleS3(c *an.Ctx) {
 						return ok && len(ret.Results) == 2 && !an.IsNil(an.RetVal(ret, 1))
 					}, func(in ssa.Instruction) bool { return an.CalleeIs(in, unlock) },
 						func(from, to *ssa.BasicBlock) bool {
-							cnd, t, ok := an.EdgeCond(from, to)
-							if !ok {
-								return false
-							}
-							r := an.Normalize(cnd, t)
-							return r.Op == token.ILLEGAL && r.Truth && r.X == ssa.Value(readOnly)
+							return an.EdgeHolds(from, to, func(r an.Rel) bool {
+								return r.Op == token.ILLEGAL && r.Truth && r.X == ssa.Value(readOnly)
+							})
 						})
 					c.Check("S3", "refusal-unlocks", call.Pos(), !bad,
 						"every refusal after the pipestance was locked must unlock it (unless read-only)")
